@@ -265,14 +265,16 @@ def format_code(
     return source
 
 
-def format_file(filename: Path, preserve: Collection[str] = frozenset(), safe: bool = False) -> int:
-    """Fix a file.
+def _format_file_source(
+    filename: Path, preserve: Collection[str] = frozenset(), safe: bool = False
+) -> str | None:
+    """Fix the content of a file, without writing it.
 
     Args:
         filename (Path): File to fix
 
     Returns:
-        bool: True if any changes were made
+        str | None: New content of the file, or None if the file should not be rewritten
     """
     logger.debug("Analyzing {filename}...", filename=filename)
     filename = Path(filename).resolve().absolute()
@@ -285,8 +287,29 @@ def format_file(filename: Path, preserve: Collection[str] = frozenset(), safe: b
     if source != initial_content and (
         core.is_valid_python(source) or not core.is_valid_python(initial_content)
     ):
-        with open(filename, "w", encoding="utf-8") as stream:
-            stream.write(source)
+        return source
+
+    return None
+
+
+def _write_file(filename: Path, source: str) -> None:
+    filename = Path(filename).resolve().absolute()
+    with open(filename, "w", encoding="utf-8") as stream:
+        stream.write(source)
+
+
+def format_file(filename: Path, preserve: Collection[str] = frozenset(), safe: bool = False) -> int:
+    """Fix a file.
+
+    Args:
+        filename (Path): File to fix
+
+    Returns:
+        bool: True if any changes were made
+    """
+    source = _format_file_source(filename, preserve=preserve, safe=safe)
+    if source is not None:
+        _write_file(filename, source)
 
         return True
 
@@ -348,13 +371,24 @@ def format_files(
                 for filename in files_to_format
             }
 
-            results = pool.starmap(
-                format_file,
+            new_sources = pool.starmap(
+                _format_file_source,
                 (
                     (filename, filename_preserve[filename], safe)
                     for filename in files_to_format
                 )
             )
+            # Formatting a file reads the files it imports from. Write the results only when
+            # every file of the pass is formatted, so that no worker can see another file
+            # of the pass half-written, or see it before or after it was rewritten depending
+            # on which worker happens to be faster.
+            results = []
+            for filename, new_source in zip(files_to_format, new_sources):
+                if new_source is not None:
+                    _write_file(filename, new_source)
+
+                results.append(new_source is not None)
+
             filename_changes = dict(zip(files_to_format, results))
             for folder, files_in_folder in folder_contents.items():
                 _, passes_left = module_changes_pass_counts[folder]
